@@ -56,6 +56,8 @@ func registry() map[string]PropSpec {
 				What: "same, fewer dimensions and more adjustments (repeated adjustments with conflicting skip flags)"},
 			{Pkg: ".", Name: "c11_step", Quick: map[string]int{"dims": 1, "adjs": 1}, Thorough: map[string]int{"dims": 2, "adjs": 2}, Unwind: [2]int{24, 32},
 				What: "InterpolateMatrixPermutation: a rejected permutation leaves command, label, key, env, plugins and matrix untouched"},
+			{Pkg: ".", Name: "tv_validate_permutation", Quick: map[string]int{}, Unwind: [2]int{64, 64},
+				What: "translator validation: a TestMatrix_ValidatePermutation_Multiple-style table, concrete, through the engine (all map iteration orders)"},
 		},
 		Outside: []string{
 			"more dimensions/adjustments/values than the bounds; dimension names and values longer than one byte (they are only compared for equality)",
@@ -124,6 +126,8 @@ func registry() map[string]PropSpec {
 				What: "newMatrixInterpolator/Transform on lit·token·lit[·token·lit] with dangerous literals, optional inner whitespace, 0-2-byte dimension names and token-shaped values against a hand-written scanner of the property grammar: single pass, error iff unknown dimension"},
 			{Pkg: ".", Name: "c12_scope", Quick: map[string]int{}, Unwind: [2]int{64, 64},
 				What: "InterpolateMatrixPermutation field scope: command, label, plugin sources/configs, env values, unknown fields replaced; env names, key, matrix, signature untouched; empty permutation changes nothing"},
+			{Pkg: ".", Name: "tv_matrix_transform", Quick: map[string]int{}, Unwind: [2]int{128, 128},
+				What: "translator validation: the repository's own TestMatrixInterpolater_* tables, concrete, through the engine's regexp matcher"},
 		},
 		Extra: extraC12,
 		Outside: []string{
@@ -138,6 +142,9 @@ func registry() map[string]PropSpec {
 			{Pkg: ".", Name: "c17_fullsource", Quick: map[string]int{"len": 8}, Thorough: map[string]int{"len": 12}, Unwind: [2]int{96, 128}, Budget: [2]int{120, 1500},
 				Models: []string{"net/url.Parse=vpModelURLParse", "path.Join=vpModelPathJoin"}, Validate: []string{"urlparse", "pathjoin"},
 				What:   "FullSource on every source of up to len bytes over [ab0._/-#:@\\] inside the documented forms equals the documented rules; a second application is the identity; MarshalYAML keys by the canonical source"},
+			{Pkg: ".", Name: "tv_fullsource", Quick: map[string]int{}, Unwind: [2]int{128, 128},
+				Models: []string{"net/url.Parse=vpModelURLParse", "path.Join=vpModelPathJoin"},
+				What:   "translator validation: the repository's own TestPluginFullSource table, concrete, through the engine and the models"},
 		},
 		Outside: []string{
 			"sources longer than the bound; upper-case scheme folding, percent-encoding, query strings, IPv6/port syntax (all hit `scheme => unchanged` before mattering)",
